@@ -1,9 +1,11 @@
 #!/bin/bash
 # tools/all_seeds.sh : apply every kept seeded change to /repo in turn, run the check of its property, undo it.
 # Prints one line per seed: DETECTED (exit 1 with a VIOLATION line), MISSED (exit 0) or BROKEN (exit 2).
+# optional argument: a regular expression, only seeds whose name matches are run
 cd /verif
 for d in seeded/*/; do
   name=$(basename $d)
+  if [ -n "$1" ] && ! [[ "$name" =~ $1 ]]; then continue; fi
   prop=$(python3 -c "import json;print(json.load(open('$d/meta.json'))['property'])")
   patch=$d/patch.diff; [ -f $d/patch.head.diff ] && patch=$d/patch.head.diff
   out=$(tools/try_seed.sh /verif/$patch $prop 2>&1)
